@@ -233,12 +233,20 @@ func r3clone(c *core.Ctx) {
 	if strlenEncDecided[c]["perRawBitData.appendBitString"] {
 		encRef = []string{"==1", ">65535"}
 	}
-	pair("aper:bitstring-size-classes", "perRawBitData.appendBitString", "perBitData.parseBitString", regexp.MustCompile(`^\(phi\(.*\)(>65535|==1)\)$`), "BIT STRING size classes", 2)
+	if strlenEncDecided[c]["perRawBitData.appendBitString"] && strlenEncDecided[c]["perBitData.parseBitString"] {
+		c.Note("R3.clone: BIT STRING size classes are decided on both sides by R3.strlen on the evaluator; no textual comparison")
+	} else {
+		pair("aper:bitstring-size-classes", "perRawBitData.appendBitString", "perBitData.parseBitString", regexp.MustCompile(`^\(phi\(.*\)(>65535|==1)\)$`), "BIT STRING size classes", 2)
+	}
 	encRef = nil
 	if strlenEncDecided[c]["perRawBitData.appendOctetString"] {
 		encRef = []string{"==1", ">65535"}
 	}
-	pair("aper:octetstring-size-classes", "perRawBitData.appendOctetString", "perBitData.parseOctetString", regexp.MustCompile(`^\(phi\(.*\)(>65535|==1)\)$`), "OCTET STRING size classes", 2)
+	if strlenEncDecided[c]["perRawBitData.appendOctetString"] && strlenEncDecided[c]["perBitData.parseOctetString"] {
+		c.Note("R3.clone: OCTET STRING size classes are decided on both sides by R3.strlen on the evaluator; no textual comparison")
+	} else {
+		pair("aper:octetstring-size-classes", "perRawBitData.appendOctetString", "perBitData.parseOctetString", regexp.MustCompile(`^\(phi\(.*\)(>65535|==1)\)$`), "OCTET STRING size classes", 2)
+	}
 	encRef = nil
 	// CHOICE index: both sides use range ub+1
 	encC, decC := mustFunc(c, pAper, "perRawBitData.appendChoiceIndex"), mustFunc(c, pAper, "perBitData.getChoiceIndex")
